@@ -5,6 +5,10 @@ CHECKS = [
       technique="explicit-state BFS over director histories on the real event loop vs. abstract channel model",
       text="Explicit-state model checking on the implementation: every history of director actions (give/take/select with 1-2 clauses in both orders/rselect/close on 1-3 channels of capacity 0..2 with 2-4 fibers) up to a depth bound is replayed on fresh channels in the real interpreter; after each action the loop runs to quiescence and worker states, completions with results and ev/count/full/capacity must equal the abstract channel model. Plus exhaustive give/take sequences over the ring-buffer queue under ASan.",
       note="Trusted: the Python channel model (FIFO service, stale registrations inert, abandoned select give-items stay queued), quiescence detection by repeated (ev/sleep 0) under virtual time, deterministic run queue. Bounds in evidence; thread channels are C08."),
+ dict(id="C07",
+      technique="explicit-state BFS over director histories under virtual time vs. model of current waits",
+      text="Explicit-state model checking on the implementation under interposed virtual time: every history (to a depth bound) of {start sleep/give/take/close/select/pipe read|chunk with or without timeout/pipe write/close-writer, each optionally under ev/with-deadline; ev/cancel of a blocked fiber; advance time to the next live or stale timer} over 2-3 fibers, 0-2 channels (capacity 0..2) and 0-2 pipes is replayed in the real event loop; every completion (fiber, value or error payload, virtual instant), the suspended set and channel counts must equal the reference model in which stale registrations are inert; a parked fiber resumed by anything but the director is a spurious wakeup.",
+      note="Trusted: virtual time (clock_gettime/timerfd_settime/epoll_wait/nanosleep interposed with -Wl,--wrap), the Python model of waits, quiescence detection. Subprocess waits and thread waits are exercised in C20/C08, not here."),
 ]
 _ALL = ["C%02d" % i for i in range(1, 21)]
 def _na():
